@@ -104,19 +104,19 @@ def _index_sets():
 
 
 def _block_grids(rng, labels, quick):
-    """Block-count assignments for the labels: the full {1,2,3,4} grid for <= 2 labels (quick: {1,2,3,4}^1,
-    {1,2,3}^2 + seeded 4s), {1,3}^3 + seeded ones for 3 labels (thorough: {1,2,3}^3 + seeded)."""
+    """Block-count assignments for the labels: the full {1,2,3,4} grid for <= 2 labels; for 3 labels {1,3}^3
+    (thorough: {1,2,3}^3) + 8 seeded assignments over {1,2,3,4}."""
     n = len(labels)
     if n == 0:
         return [()]
     if n == 1:
         return [(1,), (2,), (3,), (4,)]
     if n == 2:
-        base = list(itertools.product((1, 2, 3, 4), repeat=2)) if not quick else list(itertools.product((1, 2, 3), repeat=2))
-        extra = 2
+        base = list(itertools.product((1, 2, 3, 4), repeat=2))
+        extra = 0
     else:
         base = list(itertools.product((1, 3), repeat=n)) if quick else list(itertools.product((1, 2, 3), repeat=n))
-        extra = 3
+        extra = 8
     base += [tuple(rng.choice((1, 2, 3, 4, 4)) for _ in range(n)) for _ in range(extra)]
     return base
 
@@ -218,7 +218,7 @@ def blockwise_stream(ctx, da, C27, seen):
     goes through all phases (simplified / lowered / fused / materialized) like any other program."""
     rng = ctx.rng
     quick = ctx.scale(1, 0) == 1
-    budget = ctx.scale(9, 120)
+    budget = ctx.scale(9, 60)
     t0 = ctx.elapsed()
     pats = blockwise_patterns(rng, quick)
     rng.shuffle(pats)
@@ -361,8 +361,8 @@ def rechunk_kw_stream(ctx, da, C27, seen):
     import dask
 
     rng = ctx.rng
-    reps = ctx.scale(7, 60)
-    budget = ctx.scale(9, 120)
+    reps = ctx.scale(30, 200)
+    budget = ctx.scale(9, 60)
     t0 = ctx.elapsed()
     built = refused = same = fixed_same = full = 0
     errors = {}
